@@ -15,7 +15,7 @@ from sim.kit.runner import Viol
 
 ID = "C07"
 FORK = False  # cssutils.codec has no module state; consumers are created per run
-RUNS = {"quick": 260_000, "thorough": 6_000_000}
+RUNS = {"quick": 1_000_000, "thorough": 10_000_000}
 RULE = (
     "run = one (text, encoding, consumer, parameters) world + one seeded arrival schedule (chunk cuts biased to BOM/@charset/multi-byte "
     "landmarks, read sizes, short and empty reads, final timing); runs >= N_random enumerate the single-cut sweep and the <=4-byte prefix sweep"
